@@ -7,16 +7,24 @@ import (
 	"encoding/hex"
 	"fmt"
 	"net"
+	"os"
 	"runtime/debug"
 	"sort"
 	"strings"
 	"sync"
+	"sync/atomic"
 	"testing/synctest"
 	"time"
 
 	"dsim/benc"
 	"dsim/simrt"
 )
+
+var DebugPayload = os.Getenv("DSIM_DEBUG_PAYLOAD") != ""
+
+// Heartbeat is bumped by the driver around every wait for quiescence; the
+// worker's watchdog (outside the bubble) uses it to detect a wedged run.
+var Heartbeat atomic.Uint64
 
 // ---------------------------------------------------------------- event log
 
@@ -107,6 +115,10 @@ type World struct {
 	Budget    bool // step budget exhausted
 	HarnessErr string
 
+	// RawT disables transaction-id translation (C07 wants the real ids).
+	RawT    bool
+	tmap    map[string][]tpair
+	tseq    int
 	tlabels map[string]string
 	calls   []*Call
 	mu      sync.Mutex
@@ -123,10 +135,15 @@ func NewWorld(ch *Chooser, yield bool) *World {
 		Ch: ch, Log: &Log{cap: 400}, YieldMode: yield, Start: time.Now(),
 		wake:  make(chan struct{}, 1),
 		Peers: map[string]*Peer{}, Probes: map[string]int{}, FaultsHit: map[string]int{},
-		States: map[string]bool{}, tlabels: map[string]string{}, MaxSteps: 200000,
+		States: map[string]bool{}, tlabels: map[string]string{}, tmap: map[string][]tpair{}, MaxSteps: 2000000,
 		prio: map[string]int{}, changeAt: map[int]bool{},
 	}
-	w.Sched = simrt.Reset(yield, w.Wake)
+	// The scheduler is always on. In event mode only lock acquisitions and
+	// goroutine starts are scheduling points and the lowest-id runnable
+	// goroutine always goes first; in yield mode every instrumented
+	// synchronisation point is one and the chooser picks.
+	w.Sched = simrt.Reset(true, w.Wake)
+	simrt.SetLockOnly(!yield)
 	w.Sched.RegisterDriver("D")
 	w.Faults = NetFaults{LatMin: 1 * time.Millisecond, LatMax: 80 * time.Millisecond, LongMin: 3 * time.Second, LongMax: 20 * time.Second}
 	if yield {
@@ -199,11 +216,10 @@ type Action struct {
 // in event mode performs one external action. It returns false when there is
 // nothing to do (no enabled goroutine and no action).
 func (w *World) Next(actions []Action) bool {
+	Heartbeat.Add(1)
 	synctest.Wait()
-	var en []*simrt.G
-	if w.YieldMode {
-		en = w.Sched.EnabledG()
-	}
+	Heartbeat.Add(1)
+	en := w.Sched.EnabledG()
 	if len(en) == 0 && len(actions) == 0 {
 		return false
 	}
@@ -211,6 +227,20 @@ func (w *World) Next(actions []Action) bool {
 	if w.Steps > w.MaxSteps {
 		w.Budget = true
 		return false
+	}
+	if !w.YieldMode {
+		if len(en) > 0 {
+			w.Sched.Release(en[0])
+			return true
+		}
+		ws := make([]int, len(actions))
+		for i, a := range actions {
+			ws[i] = max(a.Weight, 1)
+		}
+		i := w.Ch.Pick(ws, "act")
+		w.Events++
+		actions[i].Do()
+		return true
 	}
 	useExt := len(en) == 0
 	if !useExt && len(actions) > 0 {
@@ -266,7 +296,7 @@ func (w *World) Rest() { synctest.Wait() }
 func (w *World) Settle() {
 	for w.Next(nil) {
 	}
-	if w.YieldMode && !w.Budget && w.Sched.AnonYields > 0 {
+	if !w.Budget && w.Sched.AnonYields > 0 {
 		w.HarnessErr = "yield from unregistered goroutine"
 	}
 }
@@ -283,6 +313,8 @@ func (w *World) Sleep(d time.Duration) bool {
 	}
 	t := time.NewTimer(d)
 	defer t.Stop()
+	Heartbeat.Add(1)
+	defer Heartbeat.Add(1)
 	select {
 	case <-w.wake:
 		return true
@@ -416,6 +448,7 @@ type Write struct {
 	D       benc.Dict
 	DecErr  error
 	key     string
+	RealT   string // the id the server really used (B and D carry the canonical one)
 	Failed  bool // the write returned an error (fault)
 	Short   bool
 }
@@ -509,6 +542,7 @@ func (c *SimConn) SetWriteDeadline(t time.Time) error { return nil }
 // Inject hands one datagram to the server's read loop (which must be blocked in
 // ReadFrom, true at any quiescent point) and does not wait.
 func (c *SimConn) Inject(from *net.UDPAddr, b []byte) bool {
+	b = c.translateIn(from, b)
 	select {
 	case c.inbox <- inPkt{b, from}:
 		return true
@@ -520,12 +554,95 @@ func (c *SimConn) Inject(from *net.UDPAddr, b []byte) bool {
 // InjectBlocking waits for the read loop to come back to ReadFrom (event mode
 // only: the driver must not block in yield mode).
 func (c *SimConn) InjectBlocking(from *net.UDPAddr, b []byte) bool {
+	b = c.translateIn(from, b)
 	select {
 	case c.inbox <- inPkt{b, from}:
 		return true
 	case <-c.closed:
 		return false
 	}
+}
+
+// Transaction ids of a real server's own queries depend on which of several
+// concurrently started queries drew from the process-wide issuer first. Unless
+// RawT is set, the simulated network therefore shows everything outside the
+// server a canonical id (assigned in canonical write order) and translates it
+// back on datagrams coming from the queried address, so that peers, the
+// adversary, the corpus and the log are independent of that race.
+type tpair struct{ canon, real string }
+
+func (w *World) translateOut(c *SimConn, wr *Write) {
+	if w.RawT || wr.D == nil {
+		return
+	}
+	t, ok := wr.D.Str("t")
+	if !ok {
+		return
+	}
+	wr.RealT = t
+	k := fmt.Sprintf("%d|%s", c.Idx, wr.ToStr)
+	canon := ""
+	for _, p := range w.tmap[k] {
+		if p.real == t {
+			canon = p.canon
+		}
+	}
+	if y, _ := wr.D.Str("y"); y != "q" {
+		// A reply echoing an id that, for this destination, is one of the
+		// server's own (a peer sent the server's id back in a query).
+		if canon == "" {
+			return
+		}
+	}
+	if canon == "" {
+		w.tseq++
+		canon = string([]byte{0xCA, 0xFE, byte(w.tseq >> 8), byte(w.tseq)})
+		w.tmap[k] = append(w.tmap[k], tpair{canon, t})
+	}
+	oldTok := fmt.Sprintf("1:t%d:%s", len(t), t)
+	newTok := fmt.Sprintf("1:t%d:%s", len(canon), canon)
+	if i := bytes.LastIndex(wr.B, []byte(oldTok)); i >= 0 {
+		nb := append([]byte(nil), wr.B[:i]...)
+		nb = append(nb, newTok...)
+		nb = append(nb, wr.B[i+len(oldTok):]...)
+		wr.B = nb
+	}
+	wr.D = wr.D.Set("t", canon)
+}
+
+func (c *SimConn) translateIn(from *net.UDPAddr, b []byte) []byte {
+	w := c.W
+	if w.RawT {
+		return b
+	}
+	ps := w.tmap[fmt.Sprintf("%d|%s", c.Idx, from.String())]
+	for i := len(ps) - 1; i >= 0; i-- {
+		p := ps[i]
+		tok := fmt.Sprintf("1:t%d:%s", len(p.canon), p.canon)
+		if j := bytes.Index(b, []byte(tok)); j >= 0 {
+			nb := append([]byte(nil), b[:j]...)
+			nb = append(nb, fmt.Sprintf("1:t%d:%s", len(p.real), p.real)...)
+			nb = append(nb, b[j+len(tok):]...)
+			return nb
+		}
+	}
+	return b
+}
+
+// InjectSoon hands a datagram to the read loop as soon as it is back in
+// ReadFrom, running scheduler steps (but not waiting for full quiescence) until
+// then: replies to earlier datagrams are still being produced when it lands.
+func (w *World) InjectSoon(c *SimConn, from *net.UDPAddr, b []byte) bool {
+	for tries := 0; tries < 100000; tries++ {
+		synctest.Wait()
+		if c.Inject(from, b) {
+			return true
+		}
+		if !w.Next(nil) {
+			return c.Inject(from, b)
+		}
+	}
+	return false
 }
 
 // Deliver injects and settles.
@@ -580,9 +697,6 @@ func (w *World) Drain() []*Write {
 		for _, wr := range out {
 			wr.D, wr.DecErr = benc.DecodeDict(wr.B)
 			wr.key = canonKey(wr)
-			if c.KeepHistory && !wr.Failed {
-				c.History = append(c.History, wr)
-			}
 		}
 		sort.SliceStable(out, func(i, j int) bool {
 			a, b := out[i], out[j]
@@ -591,6 +705,12 @@ func (w *World) Drain() []*Write {
 			}
 			return a.key < b.key
 		})
+		for _, wr := range out {
+			w.translateOut(c, wr)
+			if c.KeepHistory && !wr.Failed {
+				c.History = append(c.History, wr)
+			}
+		}
 		all = append(all, out...)
 	}
 	return all
@@ -606,15 +726,17 @@ func (w *World) Summ(d benc.Dict, raw []byte, peer string, out bool) string {
 	y, _ := d.Str("y")
 	t, _ := d.Str("t")
 	q, _ := d.Str("q")
-	var tl string
-	if out && y == "q" {
-		tl = w.TLabel(peer, t)
-	} else {
-		tl = w.TShow(peer, t)
-	}
+	tl := fmt.Sprintf("%x", t)
 	dd := d
-	if _, ok := w.tlabels[peer+"|"+t]; ok {
-		dd = d.Set("t", "")
+	if w.RawT {
+		if out && y == "q" {
+			tl = w.TLabel(peer, t)
+		} else {
+			tl = w.TShow(peer, t)
+		}
+		if _, ok := w.tlabels[peer+"|"+t]; ok {
+			dd = d.Set("t", "")
+		}
 	}
 	h := sha256.Sum256(benc.Encode(dd))
 	return fmt.Sprintf("y=%s q=%s t=%s len=%d h=%x", y, q, tl, len(raw), h[:4])
@@ -625,6 +747,9 @@ func (w *World) Summ(d benc.Dict, raw []byte, peer string, out bool) string {
 func (w *World) Route() {
 	for _, wr := range w.Drain() {
 		w.Logf("write c%d->%s %s fail=%v", wr.Conn.Idx, wr.ToStr, w.Summ(wr.D, wr.B, wr.ToStr, true), wr.Failed)
+		if DebugPayload {
+			w.Logf("  payload %q", wr.B)
+		}
 		if w.Tap != nil && !w.Tap(wr) {
 			continue
 		}
@@ -702,6 +827,9 @@ func (w *World) SendAfter(c *SimConn, from *net.UDPAddr, b []byte, lat time.Dura
 		d, _ := benc.DecodeDict(b)
 		ok := c.Inject(from, b)
 		w.Logf("deliver %s->c%d %s ok=%v", from, c.Idx, w.Summ(d, b, from.String(), false), ok)
+		if DebugPayload {
+			w.Logf("  payload %q", b)
+		}
 	})
 }
 
